@@ -97,7 +97,7 @@ claim("C12",
       "DESIGN.md section 6 C12")
 claim("C06",
       "Theorems (Coq, unbounded): C06_pages - for every section with at least one row the pages the pagination builds are "
-      "numbered 1..n, know the total, and exactly the first / last page carries the first / last flag; a rendered page is break?/title/subline/heading/column headers/body/footnote/source in "
+      "numbered 1..n, know the total, and exactly the first / last page carries the first / last flag (C06_exact_pages: so 'first' shows on page index 0 only, 'last' on the final page only, 'all' on every page); a rendered page is break?/title/subline/heading/column headers/body/footnote/source in "
       "that order with each block empty exactly when its placement predicate or needs_header says so; the renderer's "
       "predicate equals the placement rule used on the implementation; one-page documents make first/last/all coincide; "
       "needs_header = pageby_header || first page; every page break restates exactly the document-start geometry "
